@@ -54,6 +54,7 @@ class Function:
     nlocals: int = 0
     compiled: bool = False
     nlines: int = 0
+    src_line: int = 0
 
 
 # ---------------------------------------------------------------- helpers
@@ -253,6 +254,10 @@ def parse_dump(text, crate=''):
                     f.locals[mm.group(2)] = mm.group(3)
                     if mm.group(2) == '_0' and not f.file:
                         f.file = span.split(':')[0]
+                        try:
+                            f.src_line = int(span.split(':')[1])
+                        except (IndexError, ValueError):
+                            f.src_line = 0
                     continue
                 mm = re.match(r'^(bb\d+)( \(cleanup\))?: \{$', l)
                 if mm:
@@ -278,6 +283,20 @@ def parse_dump(text, crate=''):
         f.nlines = i - start
         if name not in funcs:                  # runtime MIR first; skip the later CTFE copy
             funcs[name] = f
+        elif '__static_ref_initialize::promoted[' in name:
+            base, prom = name.rsplit('::promoted[', 1)
+            k = 2
+            while '%s#%d::promoted[%s' % (base, k, prom) in funcs:
+                k += 1
+            f.name = '%s#%d::promoted[%s' % (base, k, prom)
+            funcs[f.name] = f
+        elif name.endswith('__static_ref_initialize') or '__static_ref_initialize::{closure' in name:
+            # lazy_static! initialisers of one module share a name: keep them all, numbered
+            k = 2
+            while '%s#%d' % (name, k) in funcs:
+                k += 1
+            f.name = '%s#%d' % (name, k)
+            funcs[f.name] = f
         i += 1
     return funcs
 
@@ -407,6 +426,19 @@ def parse_rvalue(s):
     m = re.match(r'^((?:copy|move|const|no_retag) .*) as (.+) \((\w+)(\(.*\))?\)$', s)
     if m:
         return ('cast', parse_operand(m.group(1)), m.group(2).strip(), m.group(3))
+    if re.search(r' \((?:PointerCoercion|ReifyFnPointer)\(.*\)\)$', s) and re.match(r'^[A-Za-z_<]', s):
+        # bare fn item cast to a fn pointer:  path::f as for<'a> fn(..) -> R (PointerCoercion(ReifyFnPointer(Safe), Implicit))
+        pos = 0
+        while True:
+            k = s.find(' as ', pos)
+            if k < 0:
+                break
+            head = s[:k]
+            if head.count('<') - head.count('->') == head.count('>') - head.count('->'):
+                mm = re.match(r'^(.+) \((\w+)(\(.*\))?\)$', s[k + 4:])
+                if mm:
+                    return ('cast', ('const', head.strip()), mm.group(1).strip(), mm.group(2))
+            pos = k + 4
     if s.startswith(('copy ', 'move ', 'const ', 'no_retag ')):
         return ('use', parse_operand(s))
     # aggregates
